@@ -202,13 +202,7 @@ Ltac break_match_in H :=
 Lemma nstep_edit_m s e b s' r : nstep s (NEdit e b) = Ok (s', r) -> Reindex.step (ns_m s) e = Ok (ns_m s', r).
 Proof.
   unfold nstep. intros H.
-  destruct (match e with
-            | ItAddGlobal _ => if existsb is_local (s_items (m_f (ns_m s))) then Reindex.step (ns_m s) e else Panic 65
-            | _ => Reindex.step (ns_m s) e
-            end) as [[m' r']|w] eqn:E; [|discriminate].
-  assert (E' : Reindex.step (ns_m s) e = Ok (m', r')).
-  { destruct e; try exact E. destruct (existsb _ _); [exact E|discriminate]. }
-  rewrite E'. clear E E'.
+  destruct (Reindex.step (ns_m s) e) as [[m' r']|w] eqn:E; [|discriminate].
   break_match_in H; inversion H; subst; reflexivity.
 Qed.
 
